@@ -304,6 +304,12 @@ func (d DeepVal) Origins(t *Tracer) *Origin {
 // live edges; the result of a static module helper is replaced by the helper's live results under the assumption
 // translated into the helper (depth levels).
 func (w *World) LiveValuesDeep(fn *ssa.Function, eval CondFn, v ssa.Value, depth int) []DeepVal {
+	return w.LiveValuesDeepCtx(fn, eval, v, depth, &tctx{fn: fn})
+}
+
+// LiveValuesDeepCtx: as LiveValuesDeep, with the tracer context in which fn itself was entered (so that origins of the
+// values found can be followed above fn).
+func (w *World) LiveValuesDeepCtx(fn *ssa.Function, eval CondFn, v ssa.Value, depth int, ctx0 *tctx) []DeepVal {
 	var out []DeepVal
 	var walk func(fn *ssa.Function, eval CondFn, v ssa.Value, ctx *tctx, toRoot func(ssa.Value) ssa.Value, depth int)
 	walk = func(fn *ssa.Function, eval CondFn, v ssa.Value, ctx *tctx, toRoot func(ssa.Value) ssa.Value, depth int) {
@@ -343,6 +349,6 @@ func (w *World) LiveValuesDeep(fn *ssa.Function, eval CondFn, v ssa.Value, depth
 			out = append(out, DeepVal{V: x, Ctx: ctx, Root: toRoot(x)})
 		}
 	}
-	walk(fn, eval, v, &tctx{fn: fn}, func(u ssa.Value) ssa.Value { return u }, depth)
+	walk(fn, eval, v, ctx0, func(u ssa.Value) ssa.Value { return u }, depth)
 	return out
 }
